@@ -134,6 +134,8 @@ namespace ip {
 	// fault injection for the current thread: the k-th (1-based) allocation request inside API
 	// calls fails; 0 disables. Returns how many requests were seen since the last arm().
 	void armFault(unsigned k);
+	void armFault2(unsigned k1, unsigned k2); // two faults in one call (0 = none)
+	unsigned faultsFired();
 	unsigned requestsSeen();
 	bool faultFired();
 	// event log
